@@ -103,9 +103,25 @@ def fmt_num(x):
     return str(x)
 
 
-def _dump(R, si, tier, only, part=0):
+def _legacy_copy(p, si):
+    key = ("c16-legacy", si)
+    if key not in fx._cache:
+        import shutil
+        q = scratch.fresh()
+        shutil.copy(p, q)
+        with h5py.File(q, "r+") as f:
+            del f.attrs["storage-mode"]
+            f.attrs["format-version"] = 2
+        fx._cache[key] = q
+    return fx._cache[key]
+
+
+def _dump(R, si, tier, only, part=0, legacy=False):
     th = tier == "thorough"
     p, bins, pix, symm, w = make(si)
+    if legacy:
+        p = _legacy_copy(p, si)
+        R.cls("dump:legacy-file")
     n = len(bins)
     keys = sorted(pix)
     M = np.zeros((n, n))
@@ -435,6 +451,9 @@ def units(tier):
     for si in range(len(SPECS)):
         for part in range(8):
             yield {"leg": "dump", "s": si, "part": part}
+    # the first cooler once more as a file of format version 2 (no storage-mode attribute: symmetric-upper by default)
+    for part in range(0, 8, 2):
+        yield {"leg": "dump", "s": 0, "part": part, "legacy": True}
         yield {"leg": "roundtrip", "s": si}
     for part in range(12):
         yield {"leg": "layouts", "nval": 0, "part": part, "of": 12}
@@ -451,7 +470,7 @@ def units(tier):
 def run(unit, R, tier, only=None):
     leg = unit["leg"]
     if leg == "dump":
-        _dump(R, unit["s"], tier, only, unit.get("part", 0))
+        _dump(R, unit["s"], tier, only, unit.get("part", 0), unit.get("legacy", False))
     elif leg == "roundtrip":
         _roundtrip(R, unit["s"], only)
     elif leg == "layouts":
